@@ -33,6 +33,7 @@ type SpecEnv struct {
 	args []SpecVal
 	rets []SpecVal
 	bound map[string]bool
+	quantDepth int
 }
 
 func (f *Frame) baseEnv(st *State) *SpecEnv {
@@ -413,8 +414,12 @@ func (env *SpecEnv) field(base SpecVal, name string) (SpecVal, error) {
 		}
 		ft := st.Field(i).Type()
 		if isPtr {
-			hn, hs := e.fieldHeapName(t, i)
-			return SpecVal{T: sel(e.heap(env.st, hn, hs), base.T), Typ: ft}, nil
+			lt := e.loadAddr(env.st, e.fieldLoc(t, i, base.T))
+			if env.quantDepth == 0 && lt.Sort == SSlice {
+				// A3 for slices resident in the heap (the code-side loads assume the same)
+				e.assume(e.sliceWF(lt))
+			}
+			return SpecVal{T: lt, Typ: ft}, nil
 		}
 		return SpecVal{T: e.structField(base.T, t, i), Typ: ft}, nil
 	}
@@ -669,7 +674,9 @@ func (env *SpecEnv) quant(kind string, args []ast.Expr) (SpecVal, error) {
 	q := env.e.qvar() + "_" + sanitize(id.Name)
 	saved, had := env.vars[id.Name]
 	env.vars[id.Name] = SpecVal{T: sym(q, SBV64), Typ: types.Typ[types.Int]}
+	env.quantDepth++
 	body, err := env.evalBool(args[3])
+	env.quantDepth--
 	if had {
 		env.vars[id.Name] = saved
 	} else {
@@ -775,12 +782,19 @@ func (env *SpecEnv) callExpr(n *ast.CallExpr) (SpecVal, error) {
 		return SpecVal{}, fmt.Errorf("%s of sort %s", name, args[0].T.Sort)
 	case "le16", "le32", "le64", "be16", "be32", "be64":
 		args, err := evalArgs()
-		if err != nil || len(args) != 1 || args[0].T.Sort != SSlice {
+		if err != nil || len(args) != 1 {
 			return SpecVal{}, fmt.Errorf("%s needs a byte slice: %v", name, err)
 		}
 		w, _ := strconv.Atoi(name[2:])
-		_, _, h := byteHeap(e, env.st)
 		typ := map[int]types.Type{16: types.Typ[types.Uint16], 32: types.Typ[types.Uint32], 64: types.Typ[types.Uint64]}[w]
+		if args[0].T.Sort == arraySort(SBV64, SBV8) {
+			// byte array value: read from index 0
+			return SpecVal{T: readInt(args[0].T, i64(0), w/8, name[0] == 'l'), Typ: typ}, nil
+		}
+		if args[0].T.Sort != SSlice {
+			return SpecVal{}, fmt.Errorf("%s needs a byte slice or byte array", name)
+		}
+		_, _, h := byteHeap(e, env.st)
 		return SpecVal{T: readInt(sel(h, sReg(args[0].T)), sOff(args[0].T), w/8, name[0] == 'l'), Typ: typ}, nil
 	case "sameslice":
 		args, err := evalArgs()
@@ -810,6 +824,21 @@ func (env *SpecEnv) callExpr(n *ast.CallExpr) (SpecVal, error) {
 			return SpecVal{}, fmt.Errorf("eqold: no entry state")
 		}
 		return env.eqBytes(args[0], env.st, args[1], env.old)
+	case "buflen":
+		// buflen(b): ghost length of a *bytes.Buffer
+		args, err := evalArgs()
+		if err != nil || len(args) != 1 {
+			return SpecVal{}, fmt.Errorf("buflen: %v", err)
+		}
+		ln, _ := bufHeaps(e, env.st)
+		return SpecVal{T: sel(ln, args[0].T), Typ: types.Typ[types.Int]}, nil
+	case "bufbyte":
+		args, err := evalArgs()
+		if err != nil || len(args) != 2 {
+			return SpecVal{}, fmt.Errorf("bufbyte: %v", err)
+		}
+		_, data := bufHeaps(e, env.st)
+		return SpecVal{T: sel(sel(data, args[0].T), conv64(args[1])), Typ: types.Typ[types.Uint8]}, nil
 	case "isnil":
 		args, err := evalArgs()
 		if err != nil || len(args) != 1 {
